@@ -13,8 +13,11 @@ import (
 	"bufio"
 	"fmt"
 	"math/rand"
+	"runtime"
 	"strconv"
 	"strings"
+	"sync"
+	"sync/atomic"
 	"time"
 
 	"github.com/hydraide/hydraide/app/core/hydra/swamp/treasure/guard"
@@ -235,5 +238,144 @@ func runC15(in *bufio.Scanner, w *bufio.Writer) {
 			fmt.Fprintln(w, "bad-op")
 		}
 		w.Flush()
+	}
+}
+
+// ---------------------------------------------------------------------------------------
+// Domain C15s: stress + trace inclusion.  `gen` RUNS the real guard under genuinely
+// concurrent goroutines and emits the event log (hook events are emitted under the guard's
+// own lock, so the log is a linearisation of what happened); `run` answers "ok" to every
+// line (the implementation produced the log); the Lean driver replays the log through the
+// model and answers "ok" only where the model can take the same step with the same values.
+//
+// log lines: case N | enq ID | acq ID | pre G ID (goroutine G is about to release its hold)
+//            | rel ID eff | rel ID noop
+func init() { Register("C15s", Domain{Gen: genC15s, Run: runC15s}) }
+
+func genC15s(rng *rand.Rand, tier string, w *bufio.Writer) {
+	rounds, gor, iters := 12, 6, 25
+	if tier == "thorough" {
+		rounds, gor, iters = 60, 10, 60
+	}
+	for r := 0; r < rounds; r++ {
+		var mu sync.Mutex
+		var log []string
+		add := func(s string) { mu.Lock(); log = append(log, s); mu.Unlock() }
+		g := guard.New()
+		verifhook.SetHandler(func(name string, args ...any) {
+			if len(args) < 2 || args[0] != any(g) {
+				// events of other guards (none in this process) are ignored
+			}
+			id, _ := args[1].(int64)
+			switch name {
+			case "guard.enq":
+				add(fmt.Sprintf("enq %d", id))
+			case "guard.acq":
+				add(fmt.Sprintf("acq %d", id))
+			case "guard.rel":
+				if eff, _ := args[2].(bool); eff {
+					add(fmt.Sprintf("rel %d eff", id))
+				} else {
+					add(fmt.Sprintf("rel %d noop", id))
+				}
+			}
+		})
+		var wg sync.WaitGroup
+		if r%2 == 1 {
+			for j := range c15Arrived {
+				atomic.StoreInt64(&c15Arrived[j], 0)
+			}
+			// try-acquire races: goroutines released by a barrier all call the non-waiting Start on a
+			// free guard at once; whoever is granted announces and releases before the next volley
+			volleys := 150 * iters / 25
+			for k := 0; k < 4; k++ {
+				wg.Add(1)
+				go func(k int) {
+					defer wg.Done()
+					for v := 0; v < volleys; v++ {
+						raceBarrier(&mu, &log, k, v)
+						if id := int64(g.StartTreasureGuard(false)); id != 0 {
+							runtime.Gosched()
+							add(fmt.Sprintf("pre %d %d", k, id))
+							g.ReleaseTreasureGuard(guard.ID(id))
+						}
+					}
+				}(k)
+			}
+		} else {
+			for k := 0; k < gor; k++ {
+				wg.Add(1)
+				seed := rng.Int63()
+				c15Worker(&wg, g, k, seed, iters, add)
+			}
+		}
+		done := make(chan struct{})
+		go func() { wg.Wait(); close(done) }()
+		hung := false
+		select {
+		case <-done:
+		case <-time.After(20 * time.Second):
+			hung = true // a parked waiter was never woken: goroutines are abandoned
+		}
+		verifhook.SetHandler(nil)
+		fmt.Fprintf(w, "case %d\n", r)
+		if hung {
+			mu.Lock()
+			log = append(log, "hang")
+			mu.Unlock()
+		}
+		mu.Lock()
+		for _, l := range log {
+			fmt.Fprintln(w, l)
+		}
+		mu.Unlock()
+	}
+}
+
+// a sense-reversing spin barrier for 4 goroutines (keeps the volley tight without channels)
+var c15Arrived [4]int64
+
+func raceBarrier(mu *sync.Mutex, log *[]string, k, v int) {
+	atomic.StoreInt64(&c15Arrived[k], int64(v+1))
+	for j := 0; j < 4; j++ {
+		for atomic.LoadInt64(&c15Arrived[j]) < int64(v+1) {
+			runtime.Gosched()
+		}
+	}
+}
+
+func c15Worker(wg *sync.WaitGroup, g guard.Guard, k int, seed int64, iters int, add func(string)) {
+	go func() {
+		defer wg.Done()
+		lr := rand.New(rand.NewSource(seed))
+		var old []int64
+		for i := 0; i < iters; i++ {
+			id := int64(g.StartTreasureGuard(lr.Intn(4) != 0))
+			if id == 0 {
+				continue
+			}
+			if lr.Intn(3) == 0 {
+				runtime.Gosched()
+			}
+			add(fmt.Sprintf("pre %d %d", k, id))
+			g.ReleaseTreasureGuard(guard.ID(id))
+			if lr.Intn(3) == 0 { // duplicate release, as SaveFunction + deferred release do
+				g.ReleaseTreasureGuard(guard.ID(id))
+			}
+			old = append(old, id)
+			if lr.Intn(5) == 0 { // stale release of an ID this goroutine held earlier
+				g.ReleaseTreasureGuard(guard.ID(old[lr.Intn(len(old))]))
+			}
+		}
+	}()
+}
+
+func runC15s(in *bufio.Scanner, w *bufio.Writer) {
+	for in.Scan() {
+		if strings.HasPrefix(in.Text(), "case ") {
+			fmt.Fprintln(w, in.Text())
+		} else {
+			fmt.Fprintln(w, "ok")
+		}
 	}
 }
